@@ -126,7 +126,10 @@ func (fs *faultFS) FindWithPrefixAndSuffix(prefix, suffix string) ([]string, err
 	fs.trace = append(fs.trace, "L:"+hx(prefix)+":"+hx(suffix)+":1")
 	var ms []string
 	for _, f := range fs.files {
-		if len(f.path) >= len(prefix)+len(suffix) && strings.HasPrefix(f.path, prefix) && strings.HasSuffix(f.path, suffix) {
+		// entries of ONE directory, as ReadDir gives them: a path with a further '/' behind the prefix is a file in a
+		// sub-directory (and the sub-directory itself is not a file)
+		if len(f.path) >= len(prefix)+len(suffix) && strings.HasPrefix(f.path, prefix) && strings.HasSuffix(f.path, suffix) &&
+			!strings.Contains(f.path[len(prefix):], "/") {
 			ms = append(ms, f.path)
 		}
 	}
